@@ -19,7 +19,7 @@
    name and updating the object in place are different things.
 
    The model is parametrised by six booleans [Fixes]; all-false is the tree before the four
-   "fix:" commits 204c2e5, d567ae1, f436ae3, 2d3e878, a77d816 (decorators capturing the lists at
+   "fix:" commits 204c2e5, d567ae1, f436ae3, 2d3e878, a77d816, fcd15c8 (decorators capturing the lists at
    import and writing back without a finally, install_profiler(None), two timers).
    [current] is the tree as it is now.  Keeping the unrepaired behaviours in the model lets
    Props/C19.v also state that each repair is necessary. *)
@@ -37,7 +37,11 @@ Record Fixes := mkFixes {
   fx_autoprof : bool;      (* -l: outstanding enable_by_count() calls - auto-profiling's registration statements
                               (-p), or the program's own - are balanced before main ends *)
   fx_direct_enable : bool  (* -l: main switches the LineProfiler off even when the program called
-                              profile.enable() itself and ended before profile.disable() *)
+                              profile.enable() itself and ended before profile.disable().  fcd15c8 does it
+                              only `if sys.gettrace() is prof`, i.e. when the trace slot holds THIS run's
+                              profiler - which in this model is exactly the leaking case: a profiler found
+                              enabled at entry is never displaced (the program's enable() raises instead),
+                              and the slot then keeps the foreign profiler, which main must not touch *)
 }.
 
 (* ===> the behaviour of the current tree (edit here if kernprof.main changes again) <===
@@ -45,10 +49,10 @@ Record Fixes := mkFixes {
    decorator state handed back (2d3e878), one timer (204c2e5).
    decorator state handed back (2d3e878), one timer (204c2e5), auto-profiling's
    enable_by_count() balanced in main's finally (a77d816).
-   not changed: sys.argv is still rebound by main (harmless now); builtins.profile stays;
-   a program that calls profile.enable() under -l and ends before profile.disable() leaves the
-   LineProfiler enabled (fx_direct_enable, a defect). *)
-Definition current : Fixes := mkFixes false true true true true false true false.
+   fcd15c8: -l also undoes a program's own profile.enable()
+   (`if sys.gettrace() is prof: prof.disable()`).
+   not changed: sys.argv is still rebound by main (harmless now); builtins.profile stays. *)
+Definition current : Fixes := mkFixes false true true true true false true true.
 (* the tree before the repairs *)
 Definition unrepaired : Fixes := mkFixes false false false false false false false false.
 
@@ -289,8 +293,10 @@ Definition main_body (cfg : Fixes) (o : Opts) (p : Prog) (s : St) : result * St 
   (* ... except ([leaks]) the registrations of auto-profiling: enable_by_count() once per registered
      import (line_profiler/autoprofile/line_profiler_utils.py:25), and a program that switches the
      builtin profile on and does not switch it off.  main's finally does, for -l,
-     `while prof.enable_count > 0: prof.disable_by_count()` (a77d816), which does not undo a direct
-     enable(); for the cProfile flavour the final dump_stats() disables. *)
+     `while prof.enable_count > 0: prof.disable_by_count()` (a77d816) and
+     `if sys.gettrace() is prof: prof.disable()` (fcd15c8: a direct enable(); only when the slot holds
+     this run's profiler - below the slot is only ever set to [pr] when nothing was found in it);
+     for the cProfile flavour the final dump_stats() disables. *)
   let s := set_tracing (if leaks cfg o p && negb (is_some found_tracing)
                         then Some pr else found_tracing) s in
   (* 531-532: except (KeyboardInterrupt, SystemExit): pass     533: finally: *)
